@@ -266,8 +266,109 @@ def replay_bounded(prop, rp, path):
     return 1 if r.v else 0
 
 
+def _range_worker(job):
+    """BOUNDED: at seeded points of every case of one variant, the stored angles / radii of a vector-valued *result* are in their documented
+    ranges (phi in [-pi, pi], theta in [0, pi], rho >= 0) - the range clause of C13 for operations that return vectors"""
+    import random
+    import mpmath as mp
+    from .. import enginea, numlib as NL
+    from ..views import AzimuthalRhoPhi, LongitudinalTheta
+    pk, n, sig = job
+    J = enginea.VariantJob(pk, n, sig, "C13")
+    oc = [r for r in J.returns if r is not None and isinstance(r, type)]
+    out, bad = 0, []
+    eps = mp.mpf(10) ** (-40)
+    try:
+        for label, cname, kinds, tc in J.cases():
+            ctx, scal, sargs, coords, views = J.setup_case(cname, kinds, tc)
+            rng = random.Random(hash((enginea.SEED, J.base_id, label, "range")) & 0xFFFFFFFF)
+            for env in J.sample_points(ctx, rng, 4, tries=120):
+                try:
+                    a, vec = J.concrete_args(ctx, env)
+                    r = NL.run_real(J.fn, a + [c for v in vec for c in v])
+                except Exception:
+                    continue
+                r = r if isinstance(r, tuple) else (r,)
+                if not NL.finite(r):
+                    continue
+                out += 1
+                viol = None
+                if oc and oc[0] is AzimuthalRhoPhi:
+                    if not (r[0] >= -eps):
+                        viol = ("rho", r[0])
+                    elif not (-mp.pi - eps <= r[1] <= mp.pi + eps):
+                        viol = ("phi", r[1])
+                if viol is None and len(oc) >= 2 and oc[1] is LongitudinalTheta and not (-eps <= r[2] <= mp.pi + eps):
+                    viol = ("theta", r[2])
+                if viol:
+                    bad.append((f"C13/result-range/{viol[0]}/{pk}.{n}[{enginea.sig_str(sig)}]{{{label}}}",
+                                dict(coordinate=viol[0], value=str(viol[1]), scalars=[str(x) for x in a], stored=[[str(c) for c in v] for v in vec], job=dict(pk=pk, mod=n, sig=enginea.sig_str(sig)))))
+                    break
+    except Exception as e:
+        return out, bad, f"{type(e).__name__}: {e}"
+    return out, bad, None
+
+
+def result_ranges(report, results, coverage):
+    from .. import ops, common as C
+    from ..views import AzimuthalRhoPhi, LongitudinalTheta
+    jobs = []
+    for pk, n, m in ops.all_modules():
+        for sig, entry in m.dispatch_map.items():
+            rets = entry[1:]
+            if any(r is AzimuthalRhoPhi or r is LongitudinalTheta for r in rets):
+                jobs.append((pk, n, sig))
+    res = C.pool_map(_range_worker, jobs)
+    nev = sum(r[0] for r in res)
+    bad = [b for r in res for b in r[1]]
+    errs = [r[2] for r in res if r[2]]
+    coverage["bounded_result_ranges"] = dict(variants=len(jobs), evaluations=nev, failed=len(bad), engine_errors=len(errs), label="bounded (seeded points, 60 digits) - not counted as proved",
+                                             rule="every variant whose declared result stores phi or theta: stored phi in [-pi, pi], theta in [0, pi], rho >= 0 at up to 4 points per contract case")
+    groups = {}
+    for oid, d in bad:
+        groups.setdefault(oid.split("[")[0], []).append((oid, d))
+    for g, items in sorted(groups.items()):
+        oid, d = items[0]
+        kf = C.match_known("C13", oid, dict(detail=str(d)))
+        if kf:
+            report.known_finding(oid, kf["what"])
+        else:
+            report.violation(oid, dict(kind="result-range", failing_variants=len(items), first=dict(obligation=oid, detail=d), others=[x[0] for x in items[1:6]], replay_handler="vv.props.c13:replay_range"), has_input=True)
+    if nev == 0:
+        report.error("C13 result ranges: nothing evaluated")
+
+
+def replay_range(prop, rp, path):
+    import mpmath as mp
+    import importlib
+    from .. import numlib as NL
+    from ..views import BYNAME
+    d = rp["first"]["detail"]
+    job = d["job"]
+    m = importlib.import_module(f"vector._compute.{job['pk']}.{job['mod']}")
+    sig = tuple(BYNAME.get(x, x) for x in job["sig"].split(","))
+    fn = m.dispatch_map[sig][0]
+    args = [mp.mpf(x) if x not in ("True", "False") else x == "True" for x in d["scalars"]] + [mp.mpf(c) for v in d["stored"] for c in v]
+    r = NL.run_real(fn, args)
+    r = r if isinstance(r, tuple) else (r,)
+    idx = {"rho": 0, "phi": 1, "theta": 2}[d["coordinate"]]
+    val = r[idx]
+    print(f"{fn.__module__}:{fn.__name__}{tuple(d['scalars'])}{d['stored']} -> {d['coordinate']} = {val}")
+    lo, hi = {"rho": (0, mp.inf), "phi": (-mp.pi, mp.pi), "theta": (0, mp.pi)}[d["coordinate"]]
+    if not (lo - mp.mpf(10) ** -30 <= val <= hi + mp.mpf(10) ** -30):
+        print(f"VIOLATION property={prop} replay={path}")
+        return 1
+    print("in range on this tree")
+    return 0
+
+
+def _post(report, results, coverage):
+    boundary_conventions(report, results, coverage)
+    result_ranges(report, results, coverage)
+
+
 def main(argv):
-    return lemma_prop.run("C13", __name__, MODS, post=boundary_conventions,
+    return lemma_prop.run("C13", __name__, MODS, post=_post,
                           extra_assumptions=["tolerances >= 0 (statement)", "singular strata (on the z axis, origin, exactly on the light cone, phi = +-pi) are outside real "
                                              "arithmetic's reach for the sign conventions of +-0 and NaN replacement: a bounded float64 evaluation on an explicit list of "
                                              "boundary inputs stands in (coverage.bounded_singular_strata), labelled bounded"],
